@@ -34,6 +34,7 @@ type c05Case struct {
 	Decoy      *c05Decoy `json:"decoy,omitempty"`
 	HonestFail bool      `json:"honest_fail"` // the agreed artifacts violate a rule (DISALLOW of an honest product)
 	EmptyLast  bool      `json:"empty_last"`  // the last step records no products at all (a sign-off step)
+	Unclean    bool      `json:"unclean"`     // first-step materials / last-step products carry paths that are not in cleaned form
 	StepName   string    `json:"step_name"`
 	Repeats    int       `json:"repeats"`
 }
@@ -57,6 +58,7 @@ func c05Gen(t *rapid.T) c05Case {
 	}
 	c.HonestFail = rapid.IntRange(0, 4).Draw(t, "honestfail") == 0
 	c.EmptyLast = rapid.IntRange(0, 4).Draw(t, "emptylast") == 0
+	c.Unclean = rapid.IntRange(0, 3).Draw(t, "unclean") == 0
 	return c
 }
 
@@ -135,6 +137,22 @@ func c05Run(c c05Case, r *hx.Rec) error {
 			st.ExpProd = append([][]string{{"DISALLOW", req}}, st.ExpProd...)
 		}
 		layCopy.Steps[si] = st
+	}
+	if c.Unclean {
+		// all functionaries of the first / last step agree on these oddly spelled paths; the summary
+		// must carry them exactly as recorded
+		first := layCopy.Steps[0]
+		for _, i := range stepLinks(w, first.Name) {
+			w.Links[i].Meta.Link.Materials["./vendor/lib.c"] = map[string]string{"sha256": "11"}
+			w.Links[i].Meta.Link.Materials["vendor//lib.h"] = map[string]string{"sha256": "22"}
+		}
+		first.ExpMat = [][]string{{"ALLOW", "*"}}
+		layCopy.Steps[0] = first
+		lastI := len(layCopy.Steps) - 1
+		for _, i := range stepLinks(w, layCopy.Steps[lastI].Name) {
+			w.Links[i].Meta.Link.Products["./dist/../dist/app.tar.gz"] = map[string]string{"sha256": "33"}
+		}
+		r.Label("unclean-paths")
 	}
 	diffApplied := ""
 	if c.Diff != nil && c.Diff.Step < len(layCopy.Steps) {
